@@ -26,6 +26,17 @@ CHECKS = {
    note="Trusted: Coq kernel, extraction, OCaml/C++ glue. boost::polygon is not modelled, the model is its contract; inverted rectangles "
         "are outside the domain.",
    technique="Coq proof (interval-list invariants, exactness by induction over the obstacle list) + exhaustive/random differential correspondence"),
+
+ "C09": dict(
+   category="proof", design_ref="DESIGN.md section 4, C09",
+   text="Coq theorems: the code's pin offsets and placed sizes equal the DEF rotation/mirror compositions for all eight orientations and "
+        "all integers; Circuit::hpwl's sentinel loops compute the bounding-box half-perimeter sum; the incremental model's value and per-net "
+        "bounds equal the from-scratch ones after ANY history of position updates (invariant by induction over updates). Tie: exact "
+        "equality with the C++ on exhaustive small transforms, random circuits, x/y topologies over all cells and random subsets, update "
+        "histories; an independent from-scratch oracle is evaluated on the C++ output.",
+   note="Trusted: Coq kernel, extraction, OCaml/C++/python glue. The fixed-pin folding of x/yTopology is modelled and compared exactly but "
+        "its exactness is not proved (partial).",
+   technique="Coq proof (case analysis + lia for transforms; invariant by induction over update histories) + differential correspondence"),
 }
 NOT_YET = "no check built yet in this round (design in DESIGN.md section 4)"
 NA = {}
